@@ -89,6 +89,118 @@ CHECKS = {
         note=NOTE_COMMON + "Partial: the round-trip theorem scanAhb(concat(write parts)) = parts is not yet proved in Lean; it is checked against the implementation and the model on generated expressions.",
         technique="Lean 4 proof over extracted table + list lemmas; part-wise predicate on the implementation; correspondence",
     ),
+    "C10": dict(
+        category="proof",
+        text=("Lean: parse_subst — replacing every atom token by a token list that 'behaves like one item' commutes with parsing EXACTLY (not only modulo flat), for every "
+              "token list; instantiated for packages ('(' tokens of the package expression ')') and time conditions (C10_subst_packages, C10_subst_time, C10_subst), "
+              "C10_one_level (atoms of package expressions stay untouched), C10_unknown (unknown package aborts), C10_textual (one textual replacement = one token "
+              "replacement). Predicate on the implementation: flat(resolved tree) = flat(parse of the textually substituted string) for generated tables/expressions "
+              "(condition and multi-part AHB expressions); correspondence: the model's expansion of Lark's tree = the implementation's resolved tree."),
+        design_ref="§5 C10",
+        note=NOTE_COMMON + "Modelled rather than verified: the coroutine placeholder pass is the business of C12; Lark may group same-operator runs differently at another offset, hence flat.",
+        technique="Lean 4 proof (simulation of the bracket-stack machine under token substitution) + substitution predicate + correspondence",
+    ),
+    "C11": dict(
+        category="proof",
+        text=("Lean: heap model of Tree objects / children-list objects with region tags, LRU memo, deep vs shared copies, arbitrary in-place edits; C11_pure: under a "
+              "copy discipline that shares nothing, for every pure parser, capacity and finite history every parse returns the pure parse (invariant proof); "
+              "C11_share_counterexample: lark's Tree.copy() breaks it in three operations. The discipline of the code is OBSERVED on every run (alias analysis of "
+              "returned trees against the lru_cache entry) and the theorem is instantiated with it (C11_code_copies_deeply). Histories (both parsers, hits, misses, "
+              "evictions beyond 1024 in the thorough tier, edits at any depth) run on the implementation, are compared with an uncached parse and replayed by the model."),
+        design_ref="§5 C11",
+        note=NOTE_COMMON + "Modelled rather than verified: functools.lru_cache, copy.deepcopy (observed through alias analysis + histories). Thread races are outside (histories, not schedules).",
+        technique="Lean 4 proof (heap invariant over arbitrary histories) instantiated with an observed copy discipline + history replay",
+    ),
+    "C12": dict(
+        category="proof",
+        text=("Partial by nature (CPython's scheduler is observed): Lean proves, for EVERY completion order / schedule, the logic ahbicht adds on top of asyncio.gather — "
+              "slot filling, the index bookkeeping of gather_if_necessary, dict(zip(keys, results)) also with repeated keys, the placeholder pass of package "
+              "expansion (every occurrence gets the expression resolved for it), and the task/context machine (values read from context-local storage are schedule "
+              "free). On the implementation every generated expression is evaluated under random delay schedules and under ALL completion permutations for <= 4 "
+              "awaitables of a kind and compared with the run in which nothing yields."),
+        design_ref="§5 C12",
+        note=NOTE_COMMON + "Runtime facts named, not proved: gather returns results in argument order; every gathered coroutine is its own task with a copy of the caller's context; inject resolves providers when the coroutine runs.",
+        technique="Lean 4 proof over all completion orders of the modelled bookkeeping + schedule exploration on the implementation",
+    ),
+    "C13": dict(
+        category="proof",
+        text=("Lean (model of the five validate_* functions over the three extracted tables): C13_order (reported discriminators are a sub-sequence of document "
+              "order), C13_complete (nothing missing unless below a forbidden node), C13_pruned_*, C13_status / C13_status_freetext (own status x parent via the "
+              "documented tables, FILLED/EMPTY suffix), C13_dominate_optional (at any depth) / _required, C13_only_not_implemented (the only abort is the documented "
+              "one). The tables are proved equal to the documented mapping (mapOwn_eq_spec, combine_eq_spec). The model takes node-expression evaluation results as "
+              "inputs (C04-C09) and is compared with validate_deep_anwendungshandbuch on random deep AHBs; all clauses are also checked directly on the implementation."),
+        design_ref="§5 C13",
+        note=NOTE_COMMON + "Modelled rather than verified: MAUS data classes, asyncio.gather order (C12).",
+        technique="Lean 4 proof (mutual structural induction over the AHB tree, kernel-decided table facts) + full-result correspondence",
+    ),
+    "C14": dict(
+        category="proof",
+        text=("Lean: C14 — validateAhb lines b = validateAhb (rewriteSoll b lines) b' for every tree and both b' (table fact map_rewrite by decide, then mutual "
+              "induction). Predicate on the implementation: validation with the flag equals validation of the SOLL-rewritten AHB (strings rewritten part by part) under both flags."),
+        design_ref="§5 C14",
+        note=NOTE_COMMON + "Rewriting of the marks inside multi-part expression strings commutes with part selection by C09 (checked on the implementation).",
+        technique="Lean 4 proof by mutual induction + rewrite predicate on the implementation",
+    ),
+    "C15": dict(
+        category="proof",
+        text=("Partial by nature (PEP 567 semantics observed): Lean proves for the task/context machine that under EVERY schedule every read returns the statically "
+              "expected value (C15_schedule_free) and, for a well-scoped program, the own element's input (C15_isolation, C15). The program of real validation runs "
+              "is RECORDED (proxy around the ContextVar, task factory); the Lean driver decides well-formedness and well-scopedness of the recorded program and "
+              "its expected values must equal what CPython delivered (trace validation on every run). Plus schedule exploration with yielding format evaluators and "
+              "comparison with validating each element alone."),
+        design_ref="§5 C15",
+        note=NOTE_COMMON + "Assumes the spawn structure is schedule independent (C12) and PEP 567 context copying (validated per traced run).",
+        technique="Lean 4 proof (invariant over arbitrary schedules) + trace validation of recorded programs + schedule exploration",
+    ),
+    "C16": dict(
+        category="proof",
+        text=("Lean: C16_others — for ANY set of nodes with invalid expressions, simultaneously, the masked results equal those of the AHB with 'Kann' in their place "
+              "(so one run aborts iff the other does); C16_node_* (optional + reason as hint), C16_pool (invalid entries offered as Kann), C16_same_as_kann. "
+              "Predicate on the implementation: 1-5 planted invalid expressions at random node kinds vs the Kann-substituted AHB, node by node."),
+        design_ref="§5 C16",
+        note=NOTE_COMMON + "Which expressions are invalid is C06's business; here the evaluation outcome 'invalid' is an input of the model.",
+        technique="Lean 4 proof by mutual induction with a mask + Kann-substitution predicate",
+    ),
+    "C17": dict(
+        category="proof",
+        text=("Lean: C17_offered / _offered_mem (offered qualifiers = those whose own expression is fulfilled, pool order, first position for repeats), C17_single, "
+              "C17_forbidden_segment, C17_result (never fails; forbidden iff nothing offered; accepted iff offered; unexpected value flagged and reported empty), "
+              "C17_accept_iff. Predicate on the implementation: validate_data_element_valuepool over pools of size 0-6, all input kinds, all parent statuses."),
+        design_ref="§5 C17",
+        note=NOTE_COMMON + "Python dict semantics for repeated qualifiers are modelled (dictInsert) and corresponded.",
+        technique="Lean 4 proof + direct predicate and correspondence on value pools",
+    ),
+    "C18": dict(
+        category="proof",
+        text=("Lean: C18_table (derive_condition_node_type on 0..3000, extracted, = the documented range function, decide +kernel), C18_ranges, C18_categories, "
+              "C18_partition(_tokens), C18_sorted (Nodup, ascending, same elements), C18_union, C18_assignments + C18_product_partial: the code's "
+              "'combinations of a product filtered on distinct keys' enumerates exactly one value per key, every combination once (membership + Nodup, any number "
+              "of keys). K2 (no key at all gives []) is a known finding (C18_empty_counterexample). Correspondence on large numbers, leading zeros, extraction, "
+              "__add__, generated lists as multisets."),
+        design_ref="§5 C18",
+        note=NOTE_COMMON + "Numerically equal keys ('7','007') are ordered by set iteration order in the code; ties are compared as multisets.",
+        technique="Lean 4 proof (extracted table + list combinatorics) + correspondence",
+    ),
+    "C19": dict(
+        category="proof",
+        text=("Partial (marshmallow interpreted): per class a concrete dump/load model whose nullability is looked up in the field descriptors extracted from the live "
+              "marshmallow schemas; theorems load (dump x) = some x for trees (any depth/width), requirement/format/AHB results incl. the undetermined outcome, content "
+              "evaluation results, key extracts; dump orders = declaration orders (T2). The implementation's dumped JSON must be accepted and reproduced by the model; "
+              "Schema().loads(dumps(x)) == x and evaluation of round-tripped trees are checked on the implementation."),
+        design_ref="§5 C19",
+        note=NOTE_COMMON + "Modelled rather than verified: marshmallow field semantics and hooks (pre_load/post_load/pre_dump/post_dump modelled by hand), UUID text form.",
+        technique="Lean 4 proof over extracted schema descriptors + JSON correspondence",
+    ),
+    "C20": dict(
+        category="proof",
+        text=("Partial (datetime/pytz arithmetic observed): Lean proves that the transition table pytz uses 1996-2037 IS the EU rule (84 rows, decide +kernel), that the "
+              "verdict of 932-935 is a function of the instant (C20_notation, C20_shift), 931 = zero offset, and the hour-grid lemma that makes the exhaustive sweep "
+              "over all 368184 whole hours (thorough tier) meet every fulfilled instant. The implementation is compared with independent integer arithmetic of the EU "
+              "rule over every switch day of all 42 years, random seconds, 11 offsets incl. fractional ones and 7 notations, plus the non-datetime stream."),
+        design_ref="§5 C20",
+        note=NOTE_COMMON + "Modelled rather than verified: datetime.fromisoformat's syntax (sampled), astimezone, pytz lookup (corresponded).",
+        technique="Lean 4 proof over the extracted pytz table + exhaustive/hour-grid comparison with independent arithmetic",
+    ),
     "C03": dict(
         category="proof",
         text=("All clauses of C03 are Lean theorems (29) stated about the operator tables extracted exhaustively from the running "
